@@ -78,6 +78,17 @@ func (g *genCtx) advBody(id uint16, v19 bool, phone []byte) []byte {
 	case 0x0805:
 		return append(r.bytes(3), byte(r.intn(2)), byte(r.pick(0, 1, 2, 255)), 0, 0, 0, 1)
 	case 0x1205:
+		if r.chance(25) {
+			// count whose product with the item size wraps in 32 bits, followed by the items it is congruent to
+			m := r.intn(3)
+			b := r.bytes(2)
+			cnt := uint32(m) + uint32(1+r.intn(3))<<30
+			b = append(b, byte(cnt>>24), byte(cnt>>16), byte(cnt>>8), byte(cnt))
+			for i := 0; i < m; i++ {
+				b = append(b, r.bytes(28)...)
+			}
+			return b
+		}
 		b := r.bytes(2)
 		b = append(b, 0, 0, byte(r.intn(2)), byte(r.pick(0, 1, 2, 255)))
 		return append(b, r.bytes(r.pick(0, 27, 28, 29, 56))...)
